@@ -14,7 +14,7 @@ def _not_regions_sync(body, b, t):
 
 
 FILE_SYNC = M(r"std::fs::File::sync_(data|all)", reach="must", where=_not_regions_sync, label="File::sync_data (data file)")
-REGIONS_SYNC = M(r"rawdb::regions::Regions::sync_data", reach=True, label="Regions::sync_data")
+REGIONS_SYNC = M(r"rawdb::regions::Regions::sync_data", reach="must", label="Regions::sync_data")
 MARK_CLEAN = M(r"rawdb::region_metadata::RegionMetadata::mark_clean", reach=True)
 PROMOTE = M(r"rawdb::layout::Layout::promote_pending_holes", reach=True)
 INSERT_HOLE = M(r"rawdb::layout::Layout::insert_hole")
@@ -123,6 +123,45 @@ def flush_before_punch(ctx, chk, prefix):
 import props.anchors as anchors
 
 
+def pending_holes_occupied(ctx, chk, rid):
+    """shared by C05 and C12"""
+    O, P = ctx.O, ctx.P
+    # B05.7 pending holes count as occupied space for every placement decision, and are never allocatable
+    pend_readers = _field_readers(ctx, "rawdb::layout::Layout", "pending_holes")
+    for fn in ("rawdb::layout::Layout::len", "rawdb::layout::Layout::is_last_anything"):
+        O.body(fn)
+        chk.oblige(rid + " %s consults pending_holes (freed-but-not-durable extents are still occupied)" % fn,
+                   fn in pend_readers, key=rid + "|reads|%s|pending_holes" % fn,
+                   msg="a placement decision must treat pending holes as occupied: their bytes may still be the durable "
+                       "copy of a region until the next flush")
+    ila = O.body("rawdb::layout::Layout::is_last_anything")
+    readers_blocks = _field_read_blocks(ila, "pending_holes")
+    inn = O.seen_before(ila, readers_blocks)
+    may_true = []
+    for b in ila.reachable():
+        blk = ila.blocks[b]
+        for st in blk["stmts"]:
+            if st[0] == "assign" and st[1]["l"] == 0 and not st[1]["p"]:
+                v = O.const_of(ila, st[2]["ops"][0]) if st[2]["k"] == "use" and st[2].get("ops") else None
+                if v != "0":
+                    may_true.append(b)
+        t = blk["term"]
+        if t["k"] == "call" and t["dest"]["l"] == 0 and not t["dest"]["p"]:
+            may_true.append(b)
+    bad = [b for b in may_true if not (inn[b] or b in readers_blocks)]
+    chk.oblige(rid + "b Layout::is_last_anything: every exit that can answer `true` has consulted pending_holes "
+               "[%d such exits]" % len(may_true), bool(may_true) and not bad,
+               key=rid + "b|is_last_anything|true-without-pending_holes",
+               msg="a fast path must not declare a region 'last in the file' without looking at the extents that were "
+                   "freed but are not yet durable (growing in place would overwrite them)")
+    for fn in ("rawdb::layout::Layout::find_smallest_adequate_hole", "rawdb::layout::Layout::get_hole",
+               "rawdb::layout::Layout::remove_or_compress_hole"):
+        O.body(fn)
+        chk.oblige(rid + " %s never hands out a pending hole" % fn, fn not in pend_readers,
+                   key=rid + "|no-read|%s|pending_holes" % fn,
+                   msg="pending holes must not be allocatable before promote_pending_holes")
+
+
 def run(ctx, chk):
     O, P = ctx.O, ctx.P
     # B05.1 Database::flush
@@ -146,7 +185,7 @@ def run(ctx, chk):
               label="a call that reaches a sync/flush")
     n_p = 0
     for g in O.scope_of(FLUSH):
-        body = O.body(g)
+        body = P.bodies[g]   # not inlined: a helper's Result is judged at the call that checks it
         ps = O.sites(body, M(r"rawdb::layout::Layout::promote_pending_holes"))
         n_p += len(ps)
         bad = O.after_failure(body, risky, M(r"rawdb::layout::Layout::promote_pending_holes"))
@@ -204,20 +243,7 @@ def run(ctx, chk):
                    not offenders and n >= 1, detail={"offenders": offenders}, key="B05.3d|field-writers|%s" % field,
                    msg="the layout's maps are changed only through their designated functions (a freed extent must go "
                        "through pending_holes and promotion)")
-    # B05.7 pending holes count as occupied space for every placement decision, and are never allocatable
-    pend_readers = _field_readers(ctx, "rawdb::layout::Layout", "pending_holes")
-    for fn in ("rawdb::layout::Layout::len", "rawdb::layout::Layout::is_last_anything"):
-        O.body(fn)
-        chk.oblige("B05.7 %s consults pending_holes (freed-but-not-durable extents are still occupied)" % fn,
-                   fn in pend_readers, key="B05.7|reads|%s|pending_holes" % fn,
-                   msg="a placement decision must treat pending holes as occupied: their bytes may still be the durable "
-                       "copy of a region until the next flush")
-    for fn in ("rawdb::layout::Layout::find_smallest_adequate_hole", "rawdb::layout::Layout::get_hole",
-               "rawdb::layout::Layout::remove_or_compress_hole"):
-        O.body(fn)
-        chk.oblige("B05.7 %s never hands out a pending hole" % fn, fn not in pend_readers,
-                   key="B05.7|no-read|%s|pending_holes" % fn,
-                   msg="pending holes must not be allocatable before promote_pending_holes")
+    pending_holes_occupied(ctx, chk, "B05.7")
     # B05.4 dirty tracking
     ww = O.body(WRITE_WITH)
     ws = O.need_sites(ww, DB_WRITE, 5)
@@ -286,6 +312,29 @@ def _source_types(body, op, depth=0, seen=None):
                 out |= _source_types(body, o, depth + 1, seen)
             if "place" in rv:
                 out |= _source_types(body, {"c": rv["place"]}, depth + 1, seen)
+    return out
+
+
+def _field_read_blocks(body, field):
+    out = []
+    for b in body.reachable():
+        blk = body.blocks[b]
+        places = []
+        for st in blk["stmts"]:
+            if st[0] == "assign":
+                rv = st[2]
+                if "place" in rv:
+                    places.append(rv["place"])
+                for o in rv.get("ops", []):
+                    pl = op_place(o)
+                    if pl:
+                        places.append(pl)
+        for o in blk["term"].get("args", []):
+            pl = op_place(o)
+            if pl:
+                places.append(pl)
+        if any(isinstance(e, list) and e[0] == "f" and e[2] == field for pl in places for e in pl["p"]):
+            out.append(b)
     return out
 
 
